@@ -107,3 +107,41 @@ def comp(job):
                                                  validation_level=vlib.level(strict)).to_er7(ec))
     except Exception as e:  # noqa
         return 'exc ' + vlib.exc_name(e)
+
+
+def setf(job):
+    """(version, segment, attr, value) -> Segment(seg).attr = value ; to_er7() ; parse back ; value under the same name"""
+    from hl7apy.core import Segment
+    from hl7apy.parser import parse_segment
+    v, seg, attr, value = job
+    try:
+        s = Segment(seg, version=v, validation_level=vlib.level(False))
+        setattr(s, attr, value)
+        er7 = s.to_er7()
+    except Exception as e:  # noqa
+        return 'exc ' + vlib.exc_name(e)
+    try:
+        p = parse_segment(er7, version=v, validation_level=vlib.level(False))
+        name = s.children[0].name if len(s.children) else None
+        got = [c.to_er7() for c in p.children if c.name == name]
+        back = vlib.hexs(got[0]) if len(got) == 1 else 'n%d' % len(got)
+    except Exception as e:  # noqa
+        back = 'exc:' + vlib.exc_name(e)
+    return 'ok %s %s' % (vlib.hexs(er7), back)
+
+
+def setdt(job):
+    """(version, holder_kind, holder_name, datatype, j, sub_datatype|None, k|None, value):
+    Field(F).<d_j>[.<d2_k>] = value (holder 'F') or Component(R).<d_j> = value (holder 'C'); to_er7()"""
+    from hl7apy.core import Field, Component
+    v, hk, hn, dt, j, sdt, k, value = job
+    try:
+        f = (Field if hk == 'F' else Component)(hn, version=v, validation_level=vlib.level(False))
+        if k is None:
+            setattr(f, '%s_%d' % (dt.lower(), j), value)
+        else:
+            c = getattr(f, '%s_%d' % (dt.lower(), j))
+            setattr(c, '%s_%d' % (sdt.lower(), k), value)
+        return 'ok ' + vlib.hexs(f.to_er7())
+    except Exception as e:  # noqa
+        return 'exc ' + vlib.exc_name(e)
